@@ -41,6 +41,7 @@ inductive Prim where
   | vmCellSlice           -- tlb.VmCellSlice
   | payloadV1toV4         -- wallet.PayloadV1toV4
   | w5Actions             -- wallet.W5Actions
+  | addrWc                -- tlb.AddressWithWorkchain (dictionary key: workchain as int32, address bits256)
   deriving Repr, DecidableEq, Inhabited
 
 mutual
@@ -61,7 +62,7 @@ inductive Ty where
   | refT (t : Ty)                    -- tlb.Ref[T]
   | prim (p : Prim)
   | vmStack (elem : Ty)              -- tlb.VmStack over its element type (tlb.VmStackValue)
-  | dictE (id : String)              -- tlb.HashmapE[K,V] restricted to the EMPTY dictionary (C05 owns the rest)
+  | dictE (k t : Ty)                 -- tlb.HashmapE[K,V]: Maybe ^(Hashmap n V); the dictionary itself is C05's model
   | encErr (id : String)             -- Go MarshalTLB returns "not implemented"; decode side not modelled
   | opaque (id : String)             -- custom codec without a model
 inductive Fields where
@@ -97,6 +98,10 @@ def list : List Val → Val
   | v :: vs => .cons v (list vs)
 def ctor (name : String) (v : Val) : Val := .cons (.sym name) (.cons v .nil)
 def some (v : Val) : Val := .cons v .nil
+/-- the elements of a list-shaped value -/
+def toList : Val → List Val
+  | .cons h t => h :: toList t
+  | _ => []
 end Val
 
 /-- type environment: Go named types (by index) → descriptors. Indices instead of names keep the regenerated `wf_<T>`
